@@ -130,7 +130,7 @@ fn map_noncontiguous() {
 }
 
 // Tarjan over every digraph on 3 vertices (generic code; set/map/Vec models for its state).
-// @verif prop=C09 tier=thorough fl=f2 feat=map4 role=array t=3600 mem=30 rec=::connect:4
+// @verif prop=C09 tier=exp fl=f2 feat=map4 role=array t=3600 mem=30 rec=::connect:4
 #[cfg_attr(kani, kani::proof)]
 #[cfg_attr(kani, kani::unwind(5))]
 pub fn c09_array_n3() {
@@ -138,14 +138,14 @@ pub fn c09_array_n3() {
 }
 
 // Tarjan over AdjacencyMap digraphs with vertex set within {0, 2, 3}.
-// @verif prop=C09 tier=thorough fl=f2 feat=map4 role=map-noncontiguous t=3600 mem=30
+// @verif prop=C09 tier=exp fl=f2 feat=map4 role=map-noncontiguous t=3600 mem=30
 #[cfg_attr(kani, kani::proof)]
 #[cfg_attr(kani, kani::unwind(10))]
 pub fn c09_map_noncontiguous() {
     map_noncontiguous();
 }
 
-// @verif prop=C09 tier=thorough fl=f2 role=array t=3600 mem=24
+// @verif prop=C09 tier=exp fl=f2 role=array t=3600 mem=24
 #[cfg_attr(kani, kani::proof)]
 #[cfg_attr(kani, kani::unwind(10))]
 pub fn c09_array_n4() {
